@@ -398,8 +398,9 @@ func checkC02() int {
 		fps[run.Fingerprint] = true
 		if heartbeatEarly(run) {
 			w := witnessOf(r)
-			w["max_step_gap_us"] = run.MaxStepGapUs
-			c.Violation("quiescence is declared (run cancelled) while processes are running although no 50 ms of silence occurred", w)
+			w["silence_seen_by_the_receiver_us"] = run.ExpirySilenceUs
+			w["inactivity_interval_us"] = run.TimeoutUs
+			c.Violation("quiescence is declared (run cancelled) although the heartbeat receiver had received a heartbeat less than its inactivity interval before", w)
 			continue
 		}
 		if run.Premature {
@@ -517,9 +518,10 @@ func checkC03() int {
 		}
 		if heartbeatEarly(run) {
 			w := witnessOf(r)
-			w["max_step_gap_us"] = run.MaxStepGapUs
+			w["silence_seen_by_the_receiver_us"] = run.ExpirySilenceUs
+			w["inactivity_interval_us"] = run.TimeoutUs
 			w["elapsed_us"] = run.ElapsedUs
-			c.Violation(fmt.Sprintf("mode=%s a run is cancelled while processes are running although no 50 ms of silence occurred (completion depends on how long the program runs)", r.cfg.Mode), w)
+			c.Violation(fmt.Sprintf("mode=%s a run is cancelled although the heartbeat receiver had received a heartbeat less than its inactivity interval before (completion depends on how long the program runs)", r.cfg.Mode), w)
 			continue
 		}
 		if run.Premature {
@@ -743,9 +745,11 @@ prc[main] : 1 =
 	return b.String()
 }
 
-// heartbeatEarly: a run through the real entry point ended with processes still running
-// although no 50 ms of silence had occurred between transitions - the heartbeat receiver,
-// not starvation, cut it short.
+// heartbeatEarly: in a run through the real entry point the inactivity timer fired although
+// the heartbeat receiver ITSELF had received a heartbeat less than the inactivity interval
+// before (both instants are read inside the receiver's goroutine by the vhBeat hook, so a
+// starved receiver or starved processes cannot produce this: a correct receiver re-arms its
+// timer after every heartbeat, and a timer never fires early). A 10 % margin is left.
 func heartbeatEarly(run *sup.RunResult) bool {
-	return run.Premature && run.MaxStepGapUs < 40000
+	return run.TimerExpired && run.ExpirySilenceUs >= 0 && run.ExpirySilenceUs < run.TimeoutUs*9/10
 }
